@@ -110,11 +110,23 @@ class Run:
 
         # vacuity guard
         problems = []
+        # A rule that matches fewer sites than confirmed by hand *without noticing* has become
+        # vacuous: analysis error.  A rule that says UNDECIDED for a shape it does not
+        # recognise has noticed: that clause is reported as not decided on this tree (no
+        # alarm - a refactoring must not raise one), the other rules still decide theirs.
+        notes = []
         for rid, pr in per_rule.items():
-            if pr["instances"] < pr["floor"]:
+            if pr["undecided"] and (pr["instances"] < pr["floor"] or pr["undecided"] == pr["instances"]):
+                notes.append(f"rule {rid}: not decided on this tree ({pr['undecided']} of {pr['instances']} instances have a shape the rule does not recognise)")
+                pr["not_decided"] = True
+            elif pr["instances"] < pr["floor"]:
                 problems.append(f"rule {rid}: {pr['instances']} instances, floor {pr['floor']} (confirmed by hand: {pr['confirmed_by_hand']}) - the rule has become vacuous")
-            if pr["instances"] and pr["undecided"] == pr["instances"]:
-                problems.append(f"rule {rid}: every instance is undecided")
+        decided = [rid for rid, pr in per_rule.items() if pr["instances"] and not pr.get("not_decided")]
+        if per_rule and not decided and not problems:
+            problems.append("no rule of this property decides anything on this tree")
+        for n_ in notes:
+            print(f"RULE-UNDECIDED property={self.prop} {n_}")
+        self.notes.extend(notes)
         for rid, fired in self.controls.items():
             if not fired:
                 problems.append(f"rule {rid}: positive control not flagged")
